@@ -368,4 +368,29 @@ pub fn run(ctx: &mut Ctx) {
     for i in 0..ctx.n {
         if i % 5 == 4 { tag_laws(ctx, &base) } else { modelled(ctx, &base) }
     }
+    // the words that hand back the parsing state (`input`, `offset`, `remain`) give plain values: whatever bookkeeping
+    // the interpreter keeps on the stashed inputs of nested `open-bitstr` … `close-bitstr` does not show as tags
+    for _ in 0..(ctx.n / 40).max(25) {
+        let depth = ctx.rng.below(3) + 1;
+        let mut src = String::new();
+        let mut lens: Vec<usize> = Vec::new();
+        for _ in 0..=depth {
+            let n = ctx.rng.below(4) + 2;
+            let bytes: Vec<String> = (0..n).map(|_| format!("{:02X}", ctx.rng.next_u64() as u8)).collect();
+            src.push_str(&format!("|{}| open-bitstr ", bytes.join(" ")));
+            let reads = ctx.rng.below(n);
+            for _ in 0..reads { src.push_str("u8 drop "); }
+            lens.push(n);
+        }
+        let closes = ctx.rng.below(depth + 1);
+        for _ in 0..closes { src.push_str("close-bitstr "); }
+        let probe = *ctx.rng.pick(&["input tags", "offset tags", "remain tags", "input \"offset\" get-tag"]);
+        let full = format!("{}{}", src, probe);
+        let mut xs = Xstate::boot().unwrap();
+        xs.intercept_stdout(true);
+        let r = crate::guarded(|| xs.eval(&full));
+        let top = xs.get_data(0).cloned();
+        ctx.tag(&format!("state-words:closes={}", closes));
+        ctx.check(matches!(r, Some(Ok(()))) && top == Some(Cell::Nil), || format!("C13 `{}`", full), || "ok, nil (no tags)".into(), || format!("{:?} top={:?}", r, top));
+    }
 }
